@@ -145,7 +145,7 @@ def do_check(prop, tier, seed, args):
         res = weng.run_replay(wrec, known=known)
         still = [v for v in res.violations if v.known == f['id']]
         if still:
-            line = f"KNOWN-FINDING: property={f['property']} {f['what_fails']} [{f['id']}]"
+            line = f"KNOWN-FINDING: property={prop} {f['what_fails']} [{f['id']}]"
             if line not in known_lines:
                 known_lines.append(line)
         for v in res.violations:
